@@ -34,6 +34,8 @@ kinds = st.sampled_from(sorted(NODE_KINDS))
 SPEC_KINDS = dict(NODE_KINDS)
 SPEC_KINDS["mixed"] = [0, "a", 2, "b", 10, "c", -1]
 SPEC_KINDS["float"] = [0.0, 1.5, 2.0, -3.0, 10.0, 0.25, 7.0]
+# kinds that are only drawn where a check asks for them by name
+EXTRA_KINDS = {"uni": ["\u00e9", "\u00f1", "a", "\u00fc", "b", "\u00df", "\u00f8"]}  # non-ASCII strings (latin-1 representable)
 spec_kinds = st.sampled_from(sorted(SPEC_KINDS))
 # mixed int/str labels hit the documented ambiguity of the bulk formats ("members cannot be strings"; a str first
 # member followed by a non-str is parsed as (members, id)), also inside library functions that add in bulk
@@ -453,7 +455,7 @@ def net_spec(
 ):
     cls = cls or draw(st.sampled_from(["H", "DH", "SC"]))
     kind = kind or draw((spec_kinds if wide_labels == "mixed" else spec_kinds_unmixed) if wide_labels else kinds)
-    alph = SPEC_KINDS[kind]
+    alph = SPEC_KINDS[kind] if kind in SPEC_KINDS else EXTRA_KINDS[kind]
     a = attrs(nested=nested, tuples=tuples) if with_attrs else st.just({})
     # isolated / pre-inserted nodes in a drawn order
     pre = draw(st.lists(st.sampled_from(alph), max_size=4, unique=True))
